@@ -700,6 +700,8 @@ theorem perm_layers (mt : Str → Str → Bool) (larch larch' : LArch) (rule : O
     simp only
     split
     · rfl
+    split
+    · rfl
     · split
       · rfl
       · split
@@ -716,7 +718,7 @@ theorem assertAppliesLayer_mkRule (mt : Str → Str → Bool) (g : PGraph Str) (
       else if (Behavior.mk s o n exc).inconsistent = true then .err .ruleInconsistency
       else matchLayerRule mt g a ⟨s, o, n, exc⟩ dir subs objs := by
   unfold assertAppliesLayer mkRule
-  simp only [anythingMisused, convertAliases, configMissing, RuleConfig.behavior, Bool.false_and, Bool.false_eq_true,
+  simp only [anythingMisused, droppedAbsent, List.any_nil, convertAliases, configMissing, RuleConfig.behavior, Bool.false_and, Bool.false_eq_true,
     if_false, Bool.not_false, if_true, Option.isNone_some, Bool.or_false]
 
 /-- the order in which the subject / object filters of a layer rule are listed does not matter -/
